@@ -74,6 +74,10 @@ type States struct {
 	handoverYBroker  *util.Locked[*HandoverYBroker]
 	networkID        base.NetworkID
 	stateLock        sync.RWMutex
+	// NOTE switchLock serializes switching state (check, exit, enter and report)
+	// and toggling allow consensus; the current state and allow consensus can
+	// not be changed between the check of switch context and entering the next state.
+	switchLock sync.Mutex
 }
 
 func NewStates(networkID base.NetworkID, local base.LocalNode, args *StatesArgs) (*States, error) {
@@ -150,6 +154,9 @@ func (st *States) SetWhenStateSwitched(f func(StateType)) {
 }
 
 func (st *States) Hold() error {
+	st.switchLock.Lock()
+	defer st.switchLock.Unlock()
+
 	current := st.current()
 	if current == nil {
 		return nil
@@ -157,7 +164,7 @@ func (st *States) Hold() error {
 
 	st.Log().Debug().Msg("states holded")
 
-	return st.switchState(newStoppedSwitchContext(current.state(), nil))
+	return st.switchStateLocked(newStoppedSwitchContext(current.state(), nil))
 }
 
 func (st *States) AskMoveState(sctx switchContext) error {
@@ -372,6 +379,13 @@ end:
 }
 
 func (st *States) switchState(sctx switchContext) error {
+	st.switchLock.Lock()
+	defer st.switchLock.Unlock()
+
+	return st.switchStateLocked(sctx)
+}
+
+func (st *States) switchStateLocked(sctx switchContext) error {
 	e := util.StringError("switch state")
 
 	current := st.current()
@@ -717,6 +731,9 @@ func (st *States) AllowedConsensus() bool {
 }
 
 func (st *States) SetAllowConsensus(allow bool) bool { // revive:disable-line:flag-parameter
+	st.switchLock.Lock()
+	defer st.switchLock.Unlock()
+
 	st.stateLock.RLock()
 	defer st.stateLock.RUnlock()
 
